@@ -295,6 +295,12 @@ def make_handler_class(base):
             else:
                 await super().handle_connection(connection)
 
+        def release_transport(self, connection, handler):
+            # observed, not altered: which done-callback (or finally block) runs, for which task
+            env = self.env
+            env.rec("rel", env.me(), env.conn_label.get(connection, "?"), env.tasks.get(handler, ""))
+            return super().release_transport(connection, handler)
+
         async def hook_task(self, hook):
             env = self.env
             me = env.tasks[asyncio.current_task()] = f"k{env.attempt['k']}"
